@@ -150,9 +150,9 @@ def finishFlow (fs : List FState) (i : Nat) (response : Bool) : List FState :=
   | some f => fs.set i { f with cur := (if response then { f.cur with resp := true } else { f.cur with err := true }), lv := false }
   | none => fs
 
-/-- a still-queued flow is also the one in flight: `revert()` then rewrites the state of the running replay
+/-- a still-queued flow is also in flight (awaited by the loop, or replayed by a background task): `revert()` then rewrites the state of the running replay
     (and raises on its open server connection) — finding F-C53b; outside the modelled domain -/
-def stopBlocked (s : St) : Bool := s.queue.any (fun e => isInflight s e.idx || isLive s e.idx)
+def stopBlocked (s : St) : Bool := s.queue.any (fun e => isInflight s e.idx || s.bg.any (fun p => p.1.idx == e.idx))
 
 /-- the HTTP layer marks the flow live when its replay starts -/
 def markLive (fs : List FState) (i : Nat) : List FState :=
